@@ -440,6 +440,48 @@ def disjoint_add_case(rng):
                 nontrivial=bool(y.phases), op=opname, triggers=[])
 
 
+def same_table_product_case(rng):
+    """elementwise product / quotient-free arithmetic of two operands that carry the SAME non-empty pending-sign
+    table (e.g. after the same transpose / phase_flip sequence): the two signs cancel in a product, add up in a sum"""
+    import symmray as sr
+
+    sym = rng.choice(gen.SYMS)
+    x = gen.rand_array(rng, sym, ndim=rng.randint(1, 3), fermi=True, dtype=rng.choice(["float64", "complex128"]),
+                       keep=rng.choice([0.6, 1.0]), pending=True, max_charges=2)
+    y = x.copy()
+    for s_ in list(y.blocks):
+        y.blocks[s_] = gen.rand_block(rng, np.shape(y.blocks[s_]), str(np.asarray(y.blocks[s_]).dtype))
+    opname = rng.choice(["mul", "mul", "add", "sub"])
+    env = {"x": x, "y": y}
+    steps = [{"out": ["z"], "op": opname, "in": ["x", "y"], "params": {}}]
+    res, env2 = impl.run_prog(env, steps)
+    orc = None
+    if "ok" in res[0]:
+        xs, ys = x.phase_sync(), y.phase_sync()
+        ze = {"mul": lambda: xs * ys, "add": lambda: xs + ys, "sub": lambda: xs - ys}[opname]()
+        if _val(env2["z"].phase_sync()) != _val(ze.phase_sync()):
+            orc = (f"{opname} of two operands carrying the same pending-sign table differs from the same operation on "
+                   "their synchronised copies")
+        else:
+            w = x.copy()
+            if opname == "mul":
+                w *= y
+            elif opname == "add":
+                w += y
+            else:
+                w -= y
+            if _val(w.phase_sync()) != _val(ze.phase_sync()):
+                orc = f"in-place {opname} of operands with the same pending-sign table differs from the synchronised run"
+            elif opname == "mul" and _val((x * x).phase_sync()) != _val((xs * xs).phase_sync()):
+                orc = "x * x with pending signs differs from the square of the synchronised copy"
+    else:
+        orc = f"{opname} raised {res[0].get('msg')}"
+    case = {"kind": "prog", "env": {k: ser.enc_val(v) for k, v in env.items()}, "steps": steps}
+    return dict(case=case, impl=stream.strip_py(res), oracle=orc,
+                meta=dict(sym=sym, fermi=True, kind="same-table-product", op=opname, pending=bool(x.phases)),
+                nontrivial=bool(x.phases), op=opname, triggers=[])
+
+
 def gen_cases(seed, chunk, n, tier):
     rng = random.Random(seed * 7919 + chunk * 104729 + 9)
     out = [hermitian_case(rng) for _ in range(max(1, n // 8))]
@@ -447,6 +489,7 @@ def gen_cases(seed, chunk, n, tier):
     out += [derived_case(rng) for _ in range(max(1, n // 6))]
     out += [stale_case(rng) for _ in range(max(1, n // 10))]
     out += [disjoint_add_case(rng) for _ in range(max(1, n // 8))]
+    out += [same_table_product_case(rng) for _ in range(max(1, n // 8))]
     for _ in range(n):
         env0, steps, results, meta = progs.rand_program(rng, fermi=True, length=rng.randint(1, 5), pending=True)
         # rebuild python env from the encoded one is avoided: regenerate by replaying on decoded arrays
